@@ -107,7 +107,7 @@ Write(t, v) == /\ Len(v) = Size(t)
                /\ Log([op |-> "w", t |-> t, v |-> v, o |-> worder], {})
 
 \* operator<<(const Array<T>&): length x sizeof(T) bytes, each element in the order in force
-WriteArray(t, a) == /\ \A i \in 1..Len(a) : Len(a[i]) = Size(t)
+WriteArray(t, a) == /\ {i \in 1..Len(a) : Len(a[i]) # Size(t)} = {}
                     /\ out' = out \o ArrayBytes(a, worder)
                     /\ UNCHANGED <<worder, rorder>>
                     /\ Log([op |-> "wa", t |-> t, a |-> a, o |-> worder],
